@@ -50,6 +50,8 @@ impl CancelToken {
 
     /// Check if the token is cancelled
     pub fn is_cancelled(&self) -> bool {
+        #[cfg(feature = "verif-hooks")]
+        super::verif::fire(super::verif::SchedPoint::CancelPoll);
         self.0.load(Ordering::Relaxed)
     }
 
